@@ -89,6 +89,10 @@ def geometry_witnesses():
                 cb = 'xsimd::batch<std::complex<%s>, %s>' % (t, a)
                 ws.append(WIT.W('complex|%s|%s' % (n, tn), '%s::size == %s::size && std::is_same<typename %s::real_batch, %s>::value && xsimd::is_batch_complex<%s>::value && std::is_same<typename %s::batch_bool_type, xsimd::batch_bool<%s, %s>>::value' % (cb, bt, cb, bt, cb, cb, t, a),
                                 'batch<complex<%s>,%s> has the lane count / real_batch / mask type of batch<%s,%s>' % (t, a, t, a)))
+                ws.append(WIT.W('trait|complex_bool_ret|%s|%s' % (n, tn), 'std::is_same<xsimd::simd_return_type<bool, std::complex<%s>, %s>, typename %s::batch_bool_type>::value && xsimd::simd_return_type<bool, std::complex<%s>, %s>::size == %s::size' % (t, a, cb, t, a, cb),
+                                'simd_return_type<bool, complex<%s>, %s> is the mask type of the complex batch on the SAME architecture' % (t, a)))
+                ws.append(WIT.W('trait|complex_mixed_ret|%s|%s' % (n, tn), 'std::is_same<xsimd::simd_return_type<std::complex<%s>, %s, %s>, %s>::value' % (t, t, a, cb),
+                                'simd_return_type<complex<T>, T, A> is batch<complex<T>, A>'))
                 ws.append(WIT.W('trait|complex_ret|%s|%s' % (n, tn), 'std::is_same<xsimd::simd_return_type<std::complex<%s>, std::complex<%s>, %s>, %s>::value && std::is_same<xsimd::scalar_type_t<%s>, std::complex<%s>>::value' % (t, t, a, cb, cb, t), 'simd_return_type / scalar_type for complex batches'))
     # every extension parent appears after its child; the list is ordered widest-first
     for i, (n1, a1, b1) in enumerate(ARCHS):
@@ -110,7 +114,7 @@ def geometry_witnesses():
     for x in fams[0]:
         for y in fams[1][:3]:
             for z in fams[2][:3]:
-                for perm in ((x, y, z), (z, x, y), (y, z, x)):
+                for perm in ((x, y, z), (z, x, y), (y, z, x), (y, x, z), (x, z, y), (z, y, x)):
                     ws.append(WIT.W('listalign|triple|%s|%s|%s' % tuple(p[0] for p in perm), 'xsimd::arch_list<%s, %s, %s>::alignment() == vw::max2(%s::alignment(), vw::max2(%s::alignment(), %s::alignment()))' % tuple([p[1] for p in perm] * 2), 'arch_list alignment of a 3-element list is the maximum'))
     ws.append(WIT.W('listalign|all', 'xsimd::all_x86_architectures::alignment() == 64 && xsimd::supported_architectures::alignment() == 64', 'alignment of the full x86 list is the AVX512 alignment'))
     return ws
